@@ -37,6 +37,7 @@ type c17Client struct {
 }
 
 func (c *c17Client) GetUserQuota() (*models.UserQuota, error) {
+	verif_Yield() // a round trip to the management API: other connections arrive meanwhile
 	return &models.UserQuota{MaxConnections: c.quota}, nil
 }
 
@@ -64,13 +65,19 @@ func Harness_C17_mapping_limit() {
 	h := &BaseMappingHandler{config: config.MappingConfig{MappingID: "m1", MaxConnections: cfgLimit}, client: &c17Client{quota: quotaLimit}, trafficStats: &TrafficStats{}}
 	ad := &c17Adapter{h: h}
 	h.adapter = ad
-	h.activeConnCount.Store(int32(limit - 1))
+	// one slot free, or none (then every arrival must be refused)
+	occupied := limit - 1 + verif_Choose(2)
+	h.activeConnCount.Store(int32(occupied))
 	l1, l2 := &c17Local{}, &c17Local{}
 	verif_Spawn(func() { h.handleConnection(l1) })
 	verif_Spawn(func() { h.handleConnection(l2) })
 	verif_Quiesce()
 	verif_Assert("C17.map.never_exceeded", int(ad.maxSeen) <= limit)
-	verif_Assert("C17.map.count_restored", int(h.activeConnCount.Load()) == limit-1)
+	verif_Assert("C17.map.count_restored", int(h.activeConnCount.Load()) == occupied)
+	if occupied == limit {
+		verif_Assert("C17.map.full_refuses_all", ad.entered == 0)
+		verif_Cover("C17.map.full")
+	}
 	verif_Assert("C17.map.all_closed", l1.closed && l2.closed)
 	if ad.entered < 2 {
 		verif_Cover("C17.map.refused_seen")
